@@ -193,6 +193,42 @@ def run(res, tier, seed):
                 if first is None:
                     first = {"what": f"include graph on disk '{name}': `rva lint {' '.join(mode)}` does not "
                                      f"terminate (10 s)", "files": files, "replay_cmd": " ".join(cmd)}
+    # the base file itself cannot be read: missing, a directory, not UTF-8, empty, unreadable bytes -
+    # the reader fails before any node exists; every mode must still answer with a diagnostic
+    ub = os.path.join(root, "unreadable_base")
+    os.makedirs(os.path.join(ub, "a_directory.s"), exist_ok=True)
+    with open(os.path.join(ub, "latin1.s"), "wb") as f:
+        f.write(b"main:\n    li a0, 1   # caf\xe9\n    li a7, 10\n    ecall\n")
+    with open(os.path.join(ub, "nul.s"), "wb") as f:
+        f.write(b"main:\n\x00\xff\xfe    li a7, 10\n    ecall\n")
+    with open(os.path.join(ub, "empty.s"), "wb") as f:
+        f.write(b"")
+    with open(os.path.join(ub, "inc_latin1.s"), "w") as f:
+        f.write('.include "latin1.s"\nmain:\n    li a7, 10\n    ecall\n')
+    for name in ("does_not_exist.s", "a_directory.s", "latin1.s", "nul.s", "empty.s", "inc_latin1.s"):
+        for mode in modes:
+            stats["cli_runs"] += 1
+            cmd = [RVA, "lint"] + mode + [os.path.join(ub, name)]
+            try:
+                p = subprocess.run(cmd, stdout=subprocess.DEVNULL, stderr=subprocess.PIPE, env=ENV, timeout=10)
+                err = p.stderr.decode("utf-8", "replace")
+                if ("panicked" in err or p.returncode < 0 or p.returncode == 101) and first is None:
+                    first = {"what": f"base file '{name}' that cannot be read: `rva lint {' '.join(mode)}` crashes "
+                                     f"(rc {p.returncode}): {err.strip().splitlines()[0][:160] if err.strip() else ''}",
+                             "replay_cmd": " ".join(cmd)}
+            except subprocess.TimeoutExpired:
+                if first is None:
+                    first = {"what": f"base file '{name}': `rva lint {' '.join(mode)}` does not terminate (10 s)",
+                             "replay_cmd": " ".join(cmd)}
+    # the same through the library with a reader that fails on the base file
+    bout = run_lines_isolated(RVH_DEBUG, [pipe_req("run", [("!io_base.s", "main:\n    nop\n")]),
+                                          pipe_req("parse,run", [("missing_base.s", "")])], timeout=10, chunk=10)
+    for blk in bout:
+        bad = [l for l in blk if l.startswith(("PANIC", "HANG", "CRASH"))]
+        if bad and first is None:
+            from common import unhx
+            first = {"what": "library entry point with a base file the reader cannot import: " +
+                             (bad[0] if not bad[0].startswith("PANIC") else "PANIC " + unhx(bad[0].split()[1])[:160])}
     # size scaling: time on N, 2N, 4N of a repeated structure must grow polynomially (< 8x per doubling)
     def big(kind, k):
         if kind == "dots":
